@@ -10,7 +10,8 @@ NA_REASON = {}   # property id -> reason, for properties deliberately not claime
 def main():
     checks, na, engines = [], [], []
     for pid in ALL:
-        if not os.path.exists(os.path.join(vlib.VERIF, 'props', pid, 'plugin.py')):
+        claimed = open(os.path.join(vlib.VERIF, 'tools', 'claimed.txt')).read().split()
+        if pid not in claimed or not os.path.exists(os.path.join(vlib.VERIF, 'props', pid, 'plugin.py')):
             na.append({'property_id': pid, 'reason': NA_REASON.get(pid, 'no check registered yet in this revision (work in progress, see DESIGN.md §6 %s); not a claim that the technique cannot apply' % pid)})
             continue
         P = vlib.load_plugin(pid)
